@@ -182,3 +182,6 @@ pub mod mania;
 
 /// Types used in and around this crate.
 pub mod model;
+
+#[cfg(rosu_pp_verif)]
+pub mod verif;
